@@ -1,12 +1,17 @@
 ---------------------------- MODULE TraceMinify ----------------------------
-(* Layer P acceptor for C01/C02/C19: aligns the significant tokens of the minifier's input and
-   output. One token of either stream is consumed per step (no recursion over the program). *)
-EXTENDS P8Lex, Json, IOUtils, TLCExt
+(* Layer P acceptor for C01 / C02 / C19: aligns the significant tokens of the minifier's input
+   and output. One token of either stream is consumed per step (no recursion over the program).
+   Trace record: {src, out, keepAll, keep: [[..]], builtins: [[..]], statsIn, statsOut,
+   scopes: [[b, e]] (1-based indices of significant tokens of each line-scoped construct),
+   titleIn, titleOut, bylineIn, bylineOut (byte lists, [-1] = none), focus}.
+   focus selects the property whose clauses are judged:
+     "C01"  K1 kinds / spellings / values, K2 nothing fused or swallowed, K3 line scopes, K4 stats
+     "C02"  renaming clauses on the aligned identifier pairs
+     "C19"  header clause *)
+EXTENDS P8Names, Json, IOUtils, TLCExt
 Traces == JsonDeserialize(IOEnv.TRACE_FILE)
-CoreReserved == Keywords \cup { <<112,114,105,110,116>>, <<95,105,110,105,116>>, <<95,117,112,100,97,116,101>>,
-   <<95,100,114,97,119>>, <<95,117,112,100,97,116,101,54,48>>, <<63>> }   \* print _init _update _draw _update60 ?
-VARIABLES tid, i, o, n, lineI, lineO, prevO, ren, verdict
-vars == <<tid, i, o, n, lineI, lineO, prevO, ren, verdict>>
+VARIABLES tid, i, o, n, lineO, prevO, ren, verdict
+vars == <<tid, i, o, n, lineO, prevO, ren, verdict>>
 T == Traces[tid]
 Src == T.src
 Out == T.out
@@ -26,47 +31,58 @@ HeaderText == IF Len(Header) = 0 THEN <<>>
               ELSE IF Len(Header) = 1 THEN Header[1] \o <<10>>
               ELSE Header[1] \o <<10>> \o Header[2] \o <<10>>
 HeaderOK == Len(Out) >= Len(HeaderText) /\ SubSeq(Out, 1, Len(HeaderText)) = HeaderText
-Init == /\ tid \in 1..Len(Traces) /\ i = 1 /\ o = 1 /\ n = 1 /\ lineI = 0 /\ lineO = 0 /\ prevO = 0 - 1
+\* the output must not start with more leading comments than the header (a dropped comment is fine,
+\* a comment made from code is C01's business)
+\* when the input already starts with its header in canonical form, what `stats` derives from it
+\* (title, byline) is what it derives from the output
+Canonical == Len(Src) >= Len(HeaderText) /\ SubSeq(Src, 1, Len(HeaderText)) = HeaderText
+TitlesOK == Canonical => /\ (Len(Header) >= 1 => T.titleIn = T.titleOut)
+                         /\ (Len(Header) >= 2 => T.bylineIn = T.bylineOut)
+Init == /\ tid \in 1..Len(Traces) /\ i = 1 /\ o = 1 /\ n = 1 /\ lineO = 0 /\ prevO = 0 - 1
         /\ ren = {} /\ verdict = "run"
-Stop(v) == verdict' = v /\ UNCHANGED <<tid, i, o, n, lineI, lineO, prevO, ren>>
+Stop(v) == verdict' = v /\ UNCHANGED <<tid, i, o, n, lineO, prevO, ren>>
 NameOf(s, a, e, k) == IF k = "label" THEN SubSeq(s, a + 2, e - 3) ELSE SubSeq(s, a, e - 1)
-IsIdent(w) == Len(w) >= 1 /\ w[1] \in Alpha /\ \A k \in 1..Len(w) : w[k] \in AlNum
 InScopeCont(k) == \E j \in 1..Len(T.scopes) : T.scopes[j][1] < k /\ k <= T.scopes[j][2]
 AfterScope(k) == \E j \in 1..Len(T.scopes) : k = T.scopes[j][2] + 1
+SameNum(a, b, sa, ia, ea, sb, ib, eb) ==
+   a = b \/ (LET x == NumValue(sa, ia, ea) y == NumValue(sb, ib, eb) IN
+               x[1] >= 0 /\ y[1] >= 0 /\ x[1] < 46340 /\ x[2] < 46340 /\ y[1] < 46340 /\ y[2] < 46340 /\ x[1] * y[2] = y[1] * x[2])
+Advance(ti, to) == /\ i' = ti.e /\ o' = to.e /\ n' = n + 1 /\ prevO' = lineO
+                   /\ lineO' = lineO + NlIn(Out, o, to.e)
 Step ==
   /\ verdict = "run"
-  /\ IF i = 1 /\ o = 1 /\ n = 1 /\ ~HeaderOK THEN Stop("header")
+  /\ IF T.focus = "C19" THEN
+        (IF ~HeaderOK THEN Stop("header") ELSE IF ~TitlesOK THEN Stop("title") ELSE Stop("ok"))
      ELSE LET ti == IF i <= Len(Src) THEN NextTok(Src, i) ELSE Tok("eof", i)
               to == IF o <= Len(Out) THEN NextTok(Out, o) ELSE Tok("eof", o) IN
-     IF ti.k \in Bad THEN Stop("ood-input")
-     ELSE IF to.k \in Bad THEN Stop("lex-out")
+     IF ti.k \in Bad THEN Stop("ood")
+     ELSE IF ti.k = "str" /\ ~StrValue(Src, i, ti.e).ok THEN Stop("ood")
      ELSE IF ti.k \in Trivia THEN
-        /\ i' = ti.e /\ lineI' = lineI + NlIn(Src, i, ti.e) /\ UNCHANGED <<tid, o, n, lineO, prevO, ren, verdict>>
+        /\ i' = ti.e /\ UNCHANGED <<tid, o, n, lineO, prevO, ren, verdict>>
+     ELSE IF to.k \in Bad THEN (IF T.focus = "C01" THEN Stop("lex-out") ELSE Stop("misaligned"))
      ELSE IF to.k \in Trivia THEN
-        /\ o' = to.e /\ lineO' = lineO + NlIn(Out, o, to.e) /\ UNCHANGED <<tid, i, n, lineI, prevO, ren, verdict>>
+        /\ o' = to.e /\ lineO' = lineO + NlIn(Out, o, to.e) /\ UNCHANGED <<tid, i, n, prevO, ren, verdict>>
      ELSE IF ti.k = "eof" /\ to.k = "eof" THEN
-        IF T.statsIn # T.statsOut THEN Stop("stats") ELSE Stop("ok")
+        (IF T.focus = "C01" /\ T.statsIn # T.statsOut THEN Stop("stats") ELSE Stop("ok"))
+     ELSE IF T.focus = "C02" /\ (ti.k = "eof" \/ to.k = "eof" \/ ti.k # to.k) THEN Stop("misaligned")
      ELSE IF ti.k = "eof" \/ to.k = "eof" THEN Stop("end-mismatch")
      ELSE IF ti.k # to.k THEN Stop("kind")
-     ELSE IF n > 1 /\ InScopeCont(n) /\ lineO # prevO THEN Stop("scope-split")
-     ELSE IF n > 1 /\ AfterScope(n) /\ lineO = prevO THEN Stop("scope-join")
+     ELSE IF T.focus = "C01" /\ n > 1 /\ InScopeCont(n) /\ lineO # prevO THEN Stop("scope-split")
+     ELSE IF T.focus = "C01" /\ n > 1 /\ AfterScope(n) /\ lineO = prevO THEN Stop("scope-join")
      ELSE LET a == SubSeq(Src, i, ti.e - 1) b == SubSeq(Out, o, to.e - 1) IN
-       IF ti.k \in {"kw", "sym", "num"} /\ a # b THEN Stop("spelling")
-       ELSE IF ti.k = "str" /\ a # b /\
-               LET va == StrValue(Src, i, ti.e) vb == StrValue(Out, o, to.e) IN ~(va.ok /\ vb.ok /\ va.v = vb.v)
+       IF T.focus = "C01" /\ ti.k \in {"kw", "sym"} /\ a # b THEN Stop("spelling")
+       ELSE IF T.focus = "C01" /\ ti.k = "num" /\ ~SameNum(a, b, Src, i, ti.e, Out, o, to.e) THEN Stop("numval")
+       ELSE IF T.focus = "C01" /\ ti.k = "str" /\ a # b /\
+               LET va == StrValue(Src, i, ti.e) vb == StrValue(Out, o, to.e) IN ~(vb.ok /\ va.v = vb.v)
             THEN Stop("strval")
-       ELSE IF ti.k \in {"name", "label"} THEN
+       ELSE IF T.focus = "C02" /\ ti.k \in {"name", "label"} THEN
             LET x == NameOf(Src, i, ti.e, ti.k) y == NameOf(Out, o, to.e, to.k) IN
               IF \E p \in ren : p[1] = x /\ p[2] # y THEN Stop("rename-consistent")
               ELSE IF \E p \in ren : p[2] = y /\ p[1] # x THEN Stop("rename-injective")
               ELSE IF (T.keepAll \/ x \in Reserved \/ x \in Keep) /\ y # x THEN Stop("rename-kept")
               ELSE IF y # x /\ (y \in Reserved \/ y \in Keep \/ ~IsIdent(y)) THEN Stop("rename-generated")
-              ELSE /\ ren' = ren \cup {<<x, y>>} /\ i' = ti.e /\ o' = to.e /\ n' = n + 1 /\ prevO' = lineO
-                   /\ lineI' = lineI + NlIn(Src, i, ti.e) /\ lineO' = lineO + NlIn(Out, o, to.e)
-                   /\ UNCHANGED <<tid, verdict>>
-       ELSE /\ i' = ti.e /\ o' = to.e /\ n' = n + 1 /\ prevO' = lineO
-            /\ lineI' = lineI + NlIn(Src, i, ti.e) /\ lineO' = lineO + NlIn(Out, o, to.e)
-            /\ UNCHANGED <<tid, ren, verdict>>
+              ELSE ren' = ren \cup {<<x, y>>} /\ Advance(ti, to) /\ UNCHANGED <<tid, verdict>>
+       ELSE Advance(ti, to) /\ UNCHANGED <<tid, ren, verdict>>
 Spec == Init /\ [][Step]_vars
 Report == (verdict # "run") => PrintT(<<"VERDICT", tid, verdict, n, i, o>>)
 =============================================================================
